@@ -167,10 +167,30 @@ class Object(ASTNode):
         return f'{ind}Object(type={repr(self.type)}, params={{params_str}})'
 
     def to_string(self, *args, **kwargs):
-        return self.to_tree()
+        params = [
+            f'{k}={param_to_string(v)}'
+            for k, v in self.params.items()
+        ]
+        return f'{self.type}({", ".join(params)})'
 
     def __repr__(self):
         return self.to_tree()
+
+
+def param_to_string(value):
+    # SQL text of a parameter value (USING, SET ...): name, object, string, number, boolean, null, json array or object
+    from mindsdb_sql.parser.ast.select.constant import Constant
+
+    if isinstance(value, ASTNode):
+        return value.to_string()
+    if value is None:
+        return 'NULL'
+    if isinstance(value, dict):
+        items = [f'{Constant(str(k)).to_string()}: {param_to_string(v)}' for k, v in value.items()]
+        return '{' + ', '.join(items) + '}'
+    if isinstance(value, (list, tuple)):
+        return '[' + ', '.join([param_to_string(v) for v in value]) + ']'
+    return Constant(value).to_string()
 
 
 class Interval(Operation):
@@ -183,7 +203,7 @@ class Interval(Operation):
         arg = self.args[0]
         items = arg.split(' ', maxsplit=1)
         # quote first element
-        items[0] = f"'{items[0]}'"
+        items[0] = param_to_string(items[0])
         return "INTERVAL " + " ".join(items)
 
     def to_tree(self, *args, level=0, **kwargs):
